@@ -14,7 +14,7 @@ for m in json.load(open('/verif/mutants/index.json')):
     if f in m['name']: print(m['name'], m['property'], '/verif/mutants/'+m['name']+'.diff')
 for d in sorted(glob.glob('/verif/seeded/*/meta.json')):
     m=json.load(open(d)); n=os.path.basename(os.path.dirname(d))
-    if f in 'seeded-'+n: print('seeded-'+n, m['property'], os.path.dirname(d)+'/patch.diff')
+    if f in 'seeded-'+n: print('seeded-'+n, m.get('detect_with', m['property']), os.path.dirname(d)+'/patch.diff')
 PY
 while read name prop patch; do
   S=$(mktemp -d /tmp/verif-mut-XXXXXX)
